@@ -19,7 +19,7 @@ func FindGoitRoot(path string) (string, error) {
 		return "", ErrGoitRootNotFound
 	}
 	goitPath := filepath.Join(absPath, ".goit")
-	if f, err := os.Stat(goitPath); !os.IsNotExist(err) && f.IsDir() {
+	if f, err := os.Stat(goitPath); err == nil && f.IsDir() {
 		return goitPath, nil
 	}
 
